@@ -48,10 +48,10 @@ CONTRACTS = {
         "quick: exhaustive for rank <= 2 (<= 2 charges per index, every index structure from a fixed list of 3-4 charge sets "
         "per symmetry, every total charge, every sector subset, every group family); rank 3 with two-charge indices: all 8 "
         "direction patterns x every total charge x every sector subset (<= 4 valid sectors, else all/one/seeded) x all 39 group "
-        "families; other rank-3 index structures: 6% sample; rank 4 with two-charge indices, all 16 direction patterns, sector "
-        "sets all / one / each single sector missing / seeded, 2-6% sample of the 316 group families; then VERIF_SEED-seeded "
+        "families; other rank-3 index structures: 4% sample; rank 4 with two-charge indices, all 16 direction patterns, sector "
+        "sets all / one / each single sector missing / seeded, 1.2-4% sample of the 316 group families; then VERIF_SEED-seeded "
         "random rank <= 4 arrays (<= 3 charges, sizes <= 3, float32/float64/complex128, pending fermionic signs) incl. nested "
-        "fuses (12000 arrays).  thorough: rank-3 sample 50%, rank-4 families 100% (Z2, U1) / 30%, 400000 random arrays; "
+        "fuses (8000 arrays).  thorough: rank-3 sample 50%, rank-4 families 50% (Z2, U1) / 15%, 150000 random arrays; "
         "stops at the time budget",
     ),
     "C05.unfuse_roundtrip": (
@@ -175,7 +175,7 @@ def _exhaustive(tier, seed):
                             continue
                         yield from _emit(spec, fam)
     # Q3: rank 3, the other index structures (sampled)
-    frac = 0.06 if quick else 0.5
+    frac = 0.04 if quick else 0.5
     for sym in SYMS_ALL:
         for fermionic in (False, True):
             rng = np.random.default_rng([seed, 13, SYMS_ALL.index(sym), int(fermionic)])
@@ -196,7 +196,7 @@ def _exhaustive(tier, seed):
     # all 16 direction patterns, sector sets = all / one / every single sector missing / seeded, sampled families
     for sym in SYMS_ALL:
         for fermionic in (False, True):
-            frac = (0.06 if sym == "Z2" else 0.02) if quick else (1.0 if sym in ("Z2", "U1") else 0.3)
+            frac = (0.04 if sym == "Z2" else 0.012) if quick else (0.5 if sym in ("Z2", "U1") else 0.15)
             rng = np.random.default_rng([seed, 15, SYMS_ALL.index(sym), int(fermionic)])
             for duals in itertools.product((False, True), repeat=4):
                 ispecs = [_ispec(a, CS[sym][0], dl) for a, dl in enumerate(duals)]
@@ -220,7 +220,7 @@ def _rand_family(rng, nd, need_multi=False):
 def _random(tier, seed):
     quick = tier == "quick"
     rng = np.random.default_rng([seed, 14])
-    N = 12000 if quick else 400000
+    N = 8000 if quick else 150000
     for i in range(N):
         sym = SYMS_ALL[int(rng.integers(0, 5))]
         fermionic = bool(rng.integers(0, 2))
